@@ -81,6 +81,16 @@ type jobConfigNamespaceLister struct {
 	ns string
 }
 
+func (l *jobConfigNamespaceLister) List(selector labels.Selector) ([]*execution.JobConfig, error) {
+	var out []*execution.JobConfig
+	for _, it := range l.l.Items {
+		if l.ns == "" || it.Namespace == l.ns {
+			out = append(out, it)
+		}
+	}
+	return out, nil
+}
+
 func (l *jobConfigNamespaceLister) Get(name string) (*execution.JobConfig, error) {
 	for _, it := range l.l.Items {
 		if it.Namespace == l.ns && it.Name == name {
